@@ -178,6 +178,13 @@ pub fn build(kind: Kind, label: &str, adaptive: [bool; 3], trade_enable_in: Opti
         PoolGeom { ts: 8, fee: 500, dynamic: [false, true, false], narrow: (-64, 64), wide: (-640, 640), protocol_fee_rate: 2500, reward_emissions: 11u128 << 64 },
         PoolGeom { ts: 128, fee: 10000, dynamic: [true, true, false], narrow: (-256, 256), wide: (-2560, 2560), protocol_fee_rate: 1300, reward_emissions: 0 },
     ];
+    // world "...-fro": the third pool is a full-range-only pool (tick spacing 32768): its two arrays span every price, so a swap
+    // can run to the protocol price bound inside the supplied arrays (an exact-out request beyond the reserves ends there)
+    let fro = label.ends_with("-fro");
+    let mut geoms = geoms;
+    if fro {
+        geoms[2] = PoolGeom { ts: 32768, fee: 10000, dynamic: [true, true, false], narrow: (-425984, 425984), wide: (-425984, 425984), protocol_fee_rate: 1300, reward_emissions: 0 };
+    }
     for g in &geoms {
         world::must("init_fee_tier", svm::process(&mut l, &world::ix_init_fee_tier(&cfg, funder, g.ts, g.fee)));
     }
@@ -234,6 +241,9 @@ pub fn build(kind: Kind, label: &str, adaptive: [bool; 3], trade_enable_in: Opti
         world::must("init_pool", svm::process(&mut l, &init));
         world::must("set_protocol_fee_rate", svm::process(&mut l, &world::ix_set_protocol_fee_rate(&pool, cfg.fee_authority, g.protocol_fee_rate)));
         for (k, off) in [-1i32, 0, 1].into_iter().enumerate() {
+            if off * pool.ticks_in_array() > crate::refmodel::MAX_TICK {
+                continue; // (full-range-only pool: no array above the one starting at 0)
+            }
             world::must("init_tick_array", svm::process(&mut l, &world::ix_init_tick_array(&pool, funder, off * pool.ticks_in_array(), g.dynamic[k])));
         }
         if g.reward_emissions > 0 {
